@@ -107,6 +107,13 @@ def run(tier: str, seed: int) -> int:
     run_.exhaustive = True
     run_.assumptions = ["numpy evaluation of cos/sin for the input fields", "Cahn-Hilliard / Gray-Scott terms measured through (S1 - S0)/(dt phi1) of the public steppers",
                         "tolerance 1e-9 * N^D * (1+|pred|)"]
+    # the composed machine (spec/Session.tla): multi-step API sessions generated by TLC -simulate, replayed call by call; this check
+    # reports the mismatches of the operations it owns (apply)
+    if tier != "quick":
+        from .. import session
+        import jax.numpy as _jnp
+        import exponax as _ex
+        session.run_for(run_, tier, seed, _ex, _jnp, ['apply'], PID)
     return run_.finish()
 
 
